@@ -34,7 +34,8 @@ REPO_TESTS = True
 RULE = (
     "case = a strict converter whose URI prefixes are valid IRI text (records with 0-2 URI-prefix synonyms, nested "
     "prefixes), optionally with configured predicates. (a) MappingServiceGraph.query through the custom processor: ?s "
-    "bound or ?o bound, VALUES inside or after WHERE, configured and foreign predicates, 1-3 recognised and unrecognised "
+    "bound or ?o bound, VALUES inside (first, last or in a nested group) or after WHERE, plain / SELECT * / DISTINCT / "
+    "PREFIX-declared predicate / ORDER BY / parenthesised VALUES forms, other variable names, configured and foreign predicates, 1-3 recognised and unrecognised "
     "URIs (in every second case the converter behind the live graph and apps grows between queries: a URI-prefix synonym "
     "merged into an existing record, a new record); bindings compared, as a multiset (single predicate) or set (several), with the model's expand_all(compress(u)). "
     "(b) the same queries through Flask GET and POST and FastAPI GET and POST, response bodies parsed by harness-own JSON / XML / "
@@ -148,11 +149,31 @@ def run_case(ctx, g, rng):
         direction = rng.choice(["s", "o"])
         inside = rng.random() < 0.5
         pred = rng.choice(conf) if rng.random() < 0.8 else FOREIGN
-        values = f"VALUES ?{direction} {{ " + " ".join(f"<{u}>" for u in uris) + " }"
-        if inside:
-            q = f"SELECT ?s ?o WHERE {{ {values} ?s <{pred}> ?o }}"
+        sv, ov = rng.choice([("s", "o"), ("s", "o"), ("x", "y"), ("subject", "object")])
+        bound = sv if direction == "s" else ov
+        if rng.random() < 0.25:
+            values = f"VALUES (?{bound}) {{ " + " ".join(f"(<{u}>)" for u in uris) + " }"
         else:
-            q = f"SELECT ?s ?o WHERE {{ ?s <{pred}> ?o }} {values}"
+            values = f"VALUES ?{bound} {{ " + " ".join(f"<{u}>" for u in uris) + " }"
+        form = rng.choice(["plain", "plain", "star", "distinct", "prefix-decl", "order-by", "dot"])
+        select = {"star": "SELECT *", "distinct": f"SELECT DISTINCT ?{sv} ?{ov}"}.get(form, f"SELECT ?{sv} ?{ov}")
+        ptxt, head = f"<{pred}>", ""
+        if form == "prefix-decl":
+            cut = max(pred.rfind("#"), pred.rfind("/")) + 1
+            head, ptxt = f"PREFIX pp: <{pred[:cut]}> ", "pp:" + pred[cut:]
+        tail = f" ORDER BY ?{ov}" if form == "order-by" else ""
+        dot = " ." if form == "dot" else ""
+        if inside:
+            place = rng.choice(["first", "last", "nested"])
+            if place == "first":
+                q = f"{head}{select} WHERE {{ {values} ?{sv} {ptxt} ?{ov}{dot} }}{tail}"
+            elif place == "last":
+                q = f"{head}{select} WHERE {{ ?{sv} {ptxt} ?{ov} . {values} }}{tail}"
+            else:
+                q = f"{head}{select} WHERE {{ {{ {values} }} ?{sv} {ptxt} ?{ov}{dot} }}{tail}"
+        else:
+            q = f"{head}{select} WHERE {{ ?{sv} {ptxt} ?{ov}{dot} }}{tail} {values}"
+        S.counters[f"wl:query-form:{form}:{'inside' if inside else 'after'}"] += 1
         exp = []
         if pred in conf:
             for u in uris:
@@ -171,7 +192,9 @@ def run_case(ctx, g, rng):
                 cls.add(("syn" if o[0] != o[1].uri_prefix else "canon") + ("+multi" if o[1].usyn else ""))
             if len(sp.uri_matches(u)) > 1:
                 cls.add("nested")
-        return q, exp, direction, inside, pred in conf, cls, uris
+        if form == "distinct":
+            exp = sorted(set(exp))
+        return q, exp, direction, inside, pred in conf, cls, (sv, ov)
 
     def compare(monitor, leg, q, exp, got, extra=None):
         evaluated(monitor)
@@ -203,7 +226,8 @@ def run_case(ctx, g, rng):
             evaluated("mapping:graph")
             violation(["C18"], "mapping:graph", "query-raises", query=q, observed=o[1], **w0)
             continue
-        got = [(str(r[0]), str(r[1])) for r in o[1]]
+        sv, ov = uris
+        got = [(str(r[sv]), str(r[ov])) for r in o[1]]
         compare("mapping:graph", "graph", q, exp, got)
         nontrivial = any(c.startswith("syn") and "multi" in c for c in cls)
         probe.note_key(f"graph:{direction}:{'in' if inside else 'after'}:{'conf' if configured else 'foreign'}:{'+'.join(sorted(cls))}:p{len(conf)}", nontrivial)
@@ -257,7 +281,7 @@ def run_case(ctx, g, rng):
                     violation(["C18"], "mapping:content-type", mech, leg=leg, accept=header, expected=sorted(acceptable), served=ctype, **w0)
                 try:
                     rows = parse_body(ctype, text)
-                    got = [(b.get("s", ""), b.get("o", "")) for b in rows]
+                    got = [(b.get(uris[0], ""), b.get(uris[1], "")) for b in rows]
                 except Exception as e:  # noqa: BLE001
                     evaluated("mapping:web")
                     violation(["C18"], "mapping:web", "body-not-parseable-as-served-content-type", leg=leg, content_type=ctype, error=repr(e), body=text[:300], **w0)
